@@ -13,6 +13,8 @@ dependency vector must equal the model; refused -> ValueError (or a subclass) is
 """
 from __future__ import annotations
 
+from vp import guard as _guard
+
 import os
 import signal
 import traceback
@@ -672,8 +674,8 @@ def _shape(expr: Any) -> str:
 
 
 def judge(case: dict[str, Any], exclude: frozenset[str] = frozenset(), hang_s: int = 20) -> Result:
-    signal.signal(signal.SIGALRM, _alarm)
-    signal.alarm(hang_s)
+    _guard.install(_alarm)
+    _guard.arm(hang_s)
     res = Result()
     try:
         _judge(case, res, exclude)
